@@ -140,7 +140,12 @@ func RichFeedMin(t *sim.T, minVehicles int) *gtfsrt.FeedMessage {
 			a, b := src.TripUpdate.Trip, twin.TripUpdate.Trip
 			proto.ClearExtension(a, gtfsrt.E_NyctTripDescriptor)
 			proto.ClearExtension(b, gtfsrt.E_NyctTripDescriptor)
-			switch t.Choose(5) {
+			switch t.Choose(7) {
+			case 5:
+				// both start times malformed, with different well-formed prefixes
+				a.StartTime, b.StartTime = ps("11:0x:00"), ps("12:0x:00")
+			case 6:
+				a.StartDate, b.StartDate = ps("2024011x"), ps("2024021x")
 			case 0:
 				a.StartTime, b.StartTime = nil, ps("00:00:00")
 			case 1:
@@ -156,6 +161,23 @@ func RichFeedMin(t *sim.T, minVehicles int) *gtfsrt.FeedMessage {
 			msg.Entity = append(msg.Entity, twin)
 			t.Probe("twin-trip-descriptors")
 		}
+	}
+	// selectors that carry a route-only trip descriptor AND another selector field (kept, and a fallback route too)
+	if t.Chance(1, 3) {
+		a := &gtfsrt.Alert{HeaderText: tr1("Stop moved")}
+		for n := t.Range(1, 3); n > 0; n-- {
+			es := &gtfsrt.EntitySelector{Trip: &gtfsrt.TripDescriptor{RouteId: ps([]string{"M15", "B41", "Q10"}[t.Choose(3)])}}
+			switch t.Choose(3) {
+			case 0:
+				es.StopId = ps("S1")
+			case 1:
+				es.AgencyId = ps("MTA")
+			case 2:
+				es.RouteType = pi32(3)
+			}
+			a.InformedEntity = append(a.InformedEntity, es)
+		}
+		msg.Entity = append(msg.Entity, &gtfsrt.FeedEntity{Id: ps("bus:3"), Alert: a})
 	}
 	// an alert whose route-only trip descriptors repeat a route, with and without a direction
 	if t.Chance(1, 3) {
@@ -195,4 +217,22 @@ func attachMercury(t *sim.T, a *gtfsrt.Alert, w *World) {
 		ma.HumanReadableActivePeriod = tr1("Jan 15, 10 PM to 5 AM")
 	}
 	proto.SetExtension(a, gtfsrt.E_MercuryAlert, ma)
+}
+
+// IrregularIDs returns a copy of the message in which some trip ids keep their first seven characters
+// (the NYCT origin-time prefix and the underscore) but get a tail that does not follow the NYCT
+// pattern: a sibling input for caches keyed by a prefix of the id.
+func IrregularIDs(t *sim.T, m *gtfsrt.FeedMessage) (*gtfsrt.FeedMessage, int) {
+	c := proto.Clone(m).(*gtfsrt.FeedMessage)
+	n := 0
+	for _, e := range c.Entity {
+		for _, td := range []*gtfsrt.TripDescriptor{e.GetTripUpdate().GetTrip(), e.GetVehicle().GetTrip()} {
+			if td == nil || td.TripId == nil || len(*td.TripId) < 7 || !t.Chance(1, 2) {
+				continue
+			}
+			td.TripId = ps((*td.TripId)[:7] + []string{"L-shuttle", "", "?", "GS.S", "1..N0123456789012345678901234567890"}[t.Choose(5)])
+			n++
+		}
+	}
+	return c, n
 }
